@@ -10,6 +10,7 @@
     TLC judges the catalog texts against NF / AnnotNF of the intended text."""
 import itertools
 import json
+import re
 import random
 
 import rel
@@ -132,6 +133,9 @@ def e2e_descriptions(chk, tier, rnd):
             cb, cp = "b%d" % n, "p%d" % n
             n += 1
             nl = rnd.choice(["\n", "\n", "\r\n", "\r"])       # the whole file in one newline convention
+            if rnd.random() < 0.35:
+                # the directive lines of the host indented with TABs (the text keeps its blanks)
+                tpl = re.sub(r"(?m)(^|%s)( +)(?=\S)", lambda mm: mm.group(1) + "\t" * max(1, len(mm.group(2)) // 2), tpl)
             if bare_ok:
                 cases.append(rel.case(cb, (tpl % bare).replace("\n", nl)))
             cases.append(rel.case(cp, (tpl % par).replace("\n", nl)))
